@@ -4,6 +4,7 @@ package main
 
 import (
 	"fmt"
+	"os"
 	"go/ast"
 	"go/token"
 	"go/types"
@@ -337,7 +338,13 @@ func intRange(t types.Type) (lo, hi string, ok bool) {
 
 func (vc *VC) rangeFact(t types.Type, v Term) Term {
 	if v.Sort == SSlc {
-		return app(SBool, ">=", Term{"(slen " + v.S + ")", SInt}, IntLit(0))
+		l := Term{"(slen " + v.S + ")", SInt}
+		if !vc.contract.Safe || os.Getenv("GOVC_NOSLENMAX") != "" {
+			return app(SBool, ">=", l, IntLit(0))
+		}
+		// a length is an int (needed only where lengths are converted between integer types:
+		// stated for functions under a safety contract, where such conversions are checked)
+		return And(app(SBool, ">=", l, IntLit(0)), app(SBool, "<=", l, BigLit("9223372036854775807")))
 	}
 	if v.Sort != SInt {
 		return TTrue
@@ -385,7 +392,7 @@ func isGhostName(n string) bool { return strings.HasPrefix(n, "ghost$") || strin
 func (vc *VC) havocHeap(st *State, why string) {
 	names := vc.sortedUniverse()
 	for _, n := range names {
-		if isGhostName(n) || strings.HasPrefix(n, "const$") || vc.prog.stableHeap[n] {
+		if isGhostName(n) || strings.HasPrefix(n, "const$") || vc.prog.stableHeap[n] || heapStructVal[n] {
 			continue
 		}
 		st.heap[n] = vc.fresh(n, vc.universe[n])
@@ -395,7 +402,7 @@ func (vc *VC) havocHeap(st *State, why string) {
 // havocExternalHeap: library call that cannot touch rqlite struct fields.
 func (vc *VC) havocExternalHeap(st *State) {
 	for _, n := range vc.sortedUniverse() {
-		if isGhostName(n) || strings.HasPrefix(n, "const$") {
+		if isGhostName(n) || strings.HasPrefix(n, "const$") || heapStructVal[n] {
 			continue
 		}
 		if strings.HasPrefix(n, "F$") || strings.HasPrefix(n, "G$") {
